@@ -53,7 +53,7 @@ package dns
 //@   pure
 
 //@ func Fqdn [C19 C03]
-//@   ensures same:  IsFqdnSpec(s) ==> ret0 == s
+//@   ensures same:  IsFqdnSpec(s) ==> same(ret0, s)
 //@   ensures added: !IsFqdnSpec(s) ==> len(ret0) == len(s) + 1 && ret0[len(s)] == '.' && (forall k in 0..len(s) :: ret0[k] == s[k])
 //@   pure
 
